@@ -157,7 +157,7 @@ PROPS = {
         'not_decided': ['applying_evolution payload at the execute_tasks call site (evolutions= is not passed there)'],
     },
     'C07': {
-        'families': ['contracts.execution', 'contracts.batches'],
+        'families': ['contracts.execution', 'contracts.batches', 'contracts.determinism'],
         'level': 'proof',
         'technique': 'contract-based deductive verification with ghost transaction/run monitors: VCs from the real AST, z3/cvc5',
         'text': 'Transaction monitor on SQLExecutor (__enter__/__exit__/new_transaction/finish_transaction/ensure_transaction/'
